@@ -149,7 +149,7 @@ class TableRow(Mapping[str, object]):
     def step(self) -> None:
         """Step the forloop forward."""
         self._index += 1
-        if self._col == self.ncols:
+        if self._index > 0 and self._col == self.ncols:
             self._col = 1
             self._row += 1
         else:
